@@ -54,7 +54,8 @@ class RepackMachine(Machine):
             neg, e = True, e.operand
         if isinstance(e, ast.Name) and fr is self.top:
             v = last_assignment(e.id, fr.fn, getattr(expr, 'lineno', 10 ** 9))
-            if v is not None and 'pack_id ==' in ast.unparse(v).replace('Obj.', '') and ('execute' in ast.unparse(v) or 'scalar' in ast.unparse(v)):
+            if v is not None and 'pack_id ==' in ast.unparse(v).replace('Obj.', '') and ('execute' in ast.unparse(v) or 'scalar' in ast.unparse(v)) \
+                    and self._is_existence_query(v, fr):
                 empty = (pol and neg) or (not pol and not neg)
                 s = list(st)
                 # an emptiness test that runs while a re-pointing is still uncommitted only reflects this session's
@@ -62,6 +63,30 @@ class RepackMachine(Machine):
                 s[5] = ('none' if empty else 'some') if st[1] is None else '?'
                 return tuple(s)
         return st
+
+    def _is_existence_query(self, v, fr):
+        """True iff the truthiness of `v` is equivalent to 'at least one row references the pack': the materialised rows of a
+        SELECT (.all()/.first()/...), or a scalar COUNT / primary key.  An aggregate such as SUM(size), or a scalar of a column
+        that can be 0/NULL, is falsy for packs that still hold (e.g. zero-length) objects."""
+        from ..effects import sql_statement
+        e = v
+        how = None
+        if isinstance(e, ast.Call) and isinstance(e.func, ast.Attribute) and e.func.attr in ('all', 'first', 'fetchall', 'fetchone', 'one_or_none', 'fetchmany'):
+            how = 'rows'
+            e = e.func.value
+        if not (isinstance(e, ast.Call) and isinstance(e.func, ast.Attribute) and e.func.attr in ('execute', 'scalar', 'scalars') and e.args):
+            return False
+        if e.func.attr == 'scalar':
+            how = 'scalar'
+        elif how is None:
+            return False  # a lazy result object is always truthy
+        info = sql_statement(self.prog, e.args[0], fr.fn, getattr(v, 'lineno', 10 ** 9))
+        if info is None or info.get('op') != 'SELECT':
+            return False
+        cols = [c.replace(' ', '') for c in info.get('cols', [])]
+        if how == 'rows':
+            return not any(c.startswith('func.') and not c.startswith('func.count') for c in cols) or False
+        return cols in (['func.count()'], ['func.count(Obj.id)'], ['Obj.id'])
 
     def transfer(self, node, st, g):
         idx, pending, P, tmp, tmpD, refs = st
